@@ -17,6 +17,9 @@ Property clause → theorem
      what IS true of every history                                → `C13.collector_shortfall_bounded` (shortfall ≤ Σ over the
                                                                     second-generation closes of 2·lot resp. recorded − received)
      and therefore, for histories without those two closes        → `C13.collector_custody_ge_sum_netfees_partial`
+     third defective operation, found in the fee-inflow round: the second-generation liquidation penalty is recorded under the
+     collateral asset while the coins arrive in the debt asset (bid.go:184) → `C13.collector_custody_ge_sum_netfees_counterexample_v2penalty`,
+     bounded like the closes (`Op.dmg`), exact after the repair        → `C13.repaired_v2_penalty_exact`
 * "recorded net fees never go negative"                           → `C13.netfees_nonneg` (every history, including those closes)
 * "increase exactly by the fees, interest and penalties paid in, and decrease exactly by what is paid out as locker savings,
    auction lots and debt cover"                                   → `C13.netfees_delta_exact_partial` (every op except the two closes,
@@ -205,6 +208,28 @@ theorem collector_custody_ge_sum_netfees_counterexample_debt :
   intro op hop
   simp [witnessDebt] at hop
   rcases hop with e | e | e <;> subst e <;> simp [Op.extOk]
+
+/-- witness 3 (reproduced on the real chain code, penalty histories): a vault of app 1 (collateral asset 1, debt asset 2) is liquidated
+by the second generation; the bid that closes its Dutch auction sends the liquidation penalty 30 in the DEBT asset to the collector
+and records it under the COLLATERAL asset (auctionsV2 bid.go:184): asset 1 has 30 recorded and 0 custody, the 30 coins of asset 2
+are unrecorded. -/
+def witnessV2Penalty : List Op := [.feeVault 1 2 20, .v2Penalty 1 1 2 30]
+
+theorem collector_custody_ge_sum_netfees_counterexample_v2penalty :
+    ExtOk witnessV2Penalty ∧
+    feeAsset 1 (runSkip (init [1, 2] [1] [((1, 2), {})]) witnessV2Penalty).fees = 30 ∧
+    bal (runSkip (init [1, 2] [1] [((1, 2), {})]) witnessV2Penalty) .collector 1 = 0 ∧
+    feeAsset 2 (runSkip (init [1, 2] [1] [((1, 2), {})]) witnessV2Penalty).fees = 20 ∧
+    bal (runSkip (init [1, 2] [1] [((1, 2), {})]) witnessV2Penalty) .collector 2 = 50 := by
+  refine ⟨?_, by decide, by decide, by decide, by decide⟩
+  intro op hop
+  simp [witnessV2Penalty] at hop
+  rcases hop with e | e <;> subst e <;> simp [Op.extOk]
+
+/-- with the one-line repair (record under the asset that arrives) the penalty is an ordinary exact inflow -/
+theorem repaired_v2_penalty_exact {D : Nat → Int} (s s' : State) (app coll debt : Nat) (x : Int) (hL : LInv s) (hC : CInvD D s)
+    (h : stepRepaired s (.v2Penalty app coll debt x) = some s') : LInv s' ∧ CInvD D s' ∧ Delta s s' :=
+  penalty_inv hL hC h
 
 /-- **Net fees move exactly with the coins**: on backed books (no second-generation close so far) every successful operation
 other than those two closes and a bare `DecreaseNetFeeCollectedData` changes, for every asset, the sum of the recorded net
